@@ -222,6 +222,11 @@ def worker(args):
             st = fitgen.state_wire(obj)
             try:
                 o2 = _copy.deepcopy(obj)
+            except Exception:
+                o2 = None
+            try:
+                if o2 is None:
+                    raise RuntimeError("no copy")
                 o2._remove_feature(victim)
                 impl = {"features": list(o2.features), "quant": list(o2.quantitative_features), "qual": list(o2.qualitative_features),
                         "orders": list(o2.values_orders), "lpv": list(o2.labels_per_values), "feat_dropna": list(o2.features_dropna),
@@ -230,7 +235,7 @@ def worker(args):
                 impl = {"error": f"{type(e).__name__}: {e}"[:200]}
             model = drv.call({"op": "disc.remove", "state": st, "feature": victim})
             stats["remove_feature"] = stats.get("remove_feature", 0) + 1
-            if impl != model:
+            if o2 is not None and impl != model:
                 fs.append({"kind": "correspondence", "what": "_remove_feature differs from its model (Disc.removeFeature)", "feature": victim,
                            "impl": impl, "model": model})
         for f in fs:
